@@ -2,14 +2,17 @@
    A case = the C01 trace of the run (pinsets, see Model/C01_Check.v) + the membership observations:
    every Consensus.AddPeer / RmPeer call with its result, and Peers() of every live member after quiescence.
    code 1: a model (C01 FSM model or the membership wrappers) predicts something else than was observed;
-   code 2: the membership observations violate the property; code 10: the pinset observations do (joiner included). *)
+   code 2: the membership observations violate the property; code 10: the pinset observations do (joiner included);
+   code 11: a joiner reported itself ready before it had received its own add entry. *)
 From V Require Import Base.Common Model.C01_RaftLog Model.C01_Check Model.C17_Members.
 Open Scope N_scope.
 
 Inductive xevent :=
 | XAdd (p : N) (err landed : bool)   (* Consensus.AddPeer(p) returned (err); landed = p is a member afterwards *)
 | XRm (p : N) (err landed : bool)    (* Consensus.RmPeer(p) returned (err); landed = p is no member afterwards *)
-| XPeers (n : N) (ps : list N).      (* Peers() on live member n after quiescence *)
+| XPeers (n : N) (ps : list N)       (* Peers() on live member n after quiescence *)
+| XReady (n : N) (self : bool).      (* Consensus.WaitForSync returned on joiner n; self = n listed itself in its own Peers() at that
+                                        moment, i.e. its latest configuration - that of the entries it has RECEIVED - holds its own add entry *)
 
 (* every list of outcomes of at most two attempts (CommitRetries = 1 in the rig) *)
 Definition outcomes2 : list (list outcome) :=
@@ -31,6 +34,7 @@ Definition xmodel_step (init : list N) (lg : list mentry) (e : xevent) : list me
       | None => (lg, false)
       end
   | XPeers n ps => (lg, seteqb ps (peers_of init lg) && nodupb ps)
+  | XReady n self => (lg, self)      (* C17_Members.ready: a member is ready only as a voter in its own latest configuration *)
   end.
 Fixpoint xmodel_run (init : list N) (lg : list mentry) (es : list xevent) : bool :=
   match es with [] => true | e :: r => let '(lg', ok) := xmodel_step init lg e in ok && xmodel_run init lg' r end.
@@ -47,6 +51,7 @@ Definition xspec_step (s : list N) (e : xevent) : list N * bool :=
       else if (Nat.eqb (length s) 1) then (s, err && negb landed)
       else if landed then (removeN p s, true) else (s, err)
   | XPeers n ps => (s, seteqb ps s && nodupb ps)
+  | XReady _ _ => (s, true)          (* judged by xready_ok (code 11) *)
   end.
 Fixpoint xspec_run (s : list N) (es : list xevent) : bool :=
   match es with [] => true | e :: r => let '(s', ok) := xspec_step s e in ok && xspec_run s' r end.
@@ -62,12 +67,19 @@ Fixpoint early_ready (ap : list (N * N)) (es : list oevent) : bool :=
   | OReady n m0 q _ :: r => (q && match aget n ap with Some a => a <? m0 | None => 0 <? m0 end) || early_ready ap r
   | _ :: r => early_ready ap r
   end.
-Definition tag17 (cmds : list logop) (es : list oevent) : N := if early_ready [] es then 4 else tag_of cmds es.
+(* a joiner reports itself ready only once it has received its own add entry (it is a voter in its own latest configuration) *)
+Definition xready_ok (xs : list xevent) : bool :=
+  forallb (fun e => match e with XReady _ self => self | _ => true end) xs.
+(* S25 is about a joiner that HAS received everything (its own add entry included) and whose FSM queue is not drained; a joiner
+   that is ready without even having received its own add entry is another failure and must not be recognised as S25 *)
+Definition tag17 (cmds : list logop) (es : list oevent) (xs : list xevent) : N :=
+  if negb (xready_ok xs) then 0 else if early_ready [] es then 4 else tag_of cmds es.
 
 Definition case := (N * (N * list logop * list oevent * list N * list xevent))%type.
 Definition check_case (c : case) : list (N * N * N) :=
   let '(id, (k, cmds, es, init, xs)) := c in
   (if model_eqb k cmds es && xmodel_run init [] xs then [] else [(id, 1, 0)]) ++
   (if xspec_run init xs then [] else [(id, 2, 0)]) ++
-  (if spec_okb k cmds es then [] else [(id, 10, tag17 cmds es)]).
+  (if xready_ok xs then [] else [(id, 11, 0)]) ++
+  (if spec_okb k cmds es then [] else [(id, 10, tag17 cmds es xs)]).
 Definition failing (cs : list case) : list (N * N * N) := flat_map check_case cs.
